@@ -75,6 +75,36 @@ RULES = {
         replace='{ let mut i__ = coefs.len(); while i__ > 0 { i__ -= 1; let coef = &coefs[i__]; $BODY } } result }',
         why='Rev has no vstd model',
         assumes='std semantics of slice::Iter::rev(): elements visited from the last to the first'),
+    # ---- air: types.rs (Page::get_product), diluted.rs
+    'R4_loop_break_value': dict(
+        kind='R4',
+        pattern='loop { if $C { break $V; } $REST }',
+        replace='{ while !($C) { $REST } $V }',
+        why='Verus does not support `break <value>`',
+        assumes='no assumption: a loop whose only exit is a leading `if C { break V; }` is `while !C { rest }` followed by V'),
+    # ---- air: public_memory.rs (get_hash)
+    'H_hash_dynamic_params': dict(
+        kind='H',
+        pattern='let dynamic_params_vec: Vec<usize> = dynamic_params.clone().into(); hash_data.extend_x(dynamic_params_vec.into_iter().map(Felt::from));',
+        replace='hoisted_extend_dynamic_params(&mut hash_data, dynamic_params);',
+        why='vec::IntoIter / Map have no vstd model',
+        assumes='appends Felt::from(x) for every element x of Vec::<usize>::from(dynamic_params.clone()), in order'),
+    'H_hash_segments': dict(
+        kind='H',
+        pattern='hash_data.extend_x(self.segments.iter().flat_map(|s| vec![s.begin_addr, s.stop_ptr]));',
+        replace='hoisted_extend_segments(&mut hash_data, &self.segments);',
+        why='FlatMap has no vstd model',
+        assumes='appends begin_addr, stop_ptr of every segment, in order'),
+    'H_hash_headers': dict(
+        kind='H',
+        pattern='hash_data.extend_x( self.continuous_page_headers.iter().flat_map(|h| vec![h.start_address, h.size, h.hash]), );',
+        replace='hoisted_extend_headers(&mut hash_data, &self.continuous_page_headers);',
+        why='FlatMap has no vstd model',
+        assumes='appends start_address, size, hash of every continuous page header, in order'),
+    # ---- stark/commit.rs
+    'R1_for_underscore': dict(
+        kind='R1', pattern='for _ in 0..n {', replace='for i__ in 0..n {',
+        why='Verus for-loops need an identifier pattern', assumes='no assumption: `_` and an unused named variable bind the same way'),
     # ---- stark/oods.rs
     'R2_enumerate_points': dict(
         kind='R2',
